@@ -303,14 +303,22 @@ def changed_outside_own_units(pid, repo, cfg, props):
         for u in pc.get("verus", []):
             covered |= _unit_labels(u, repo, f)
         kani_files = set()
+        own_contracted = set()
         for k in pc.get("kani", []):
             j = json.load(open(os.path.join(ROOT, "kani", k, "unit.json")))
             for inj in j.get("inject", []):
                 kani_files.add(inj["file"])
+            for c in j.get("contracts", []):
+                if c["file"] == f:
+                    own_contracted.add(c["item"].replace("fn ", "").strip())
         for l in changed:
             if l in covered:
                 continue
             if f in kani_files and l not in notex.get(f, set()):
+                continue
+            # under a Kani FUNCTION CONTRACT of one of this property's units (proof_for_contract: the coverage run does
+            # not list contract-checked functions as executed)
+            if any(l.endswith(c.split(" / ")[-1]) and c.split(" / ")[0] in l for c in own_contracted):
                 continue
             out.append(f"{f}: {l}")
     return out
